@@ -659,7 +659,8 @@ Examples:
         def func(x, *args, **kwds):
             for i,j in mask.items():
                 try: x[i] = x[j]
-                except TypeError: # value is tuple with f(x) or constant
+                except (TypeError, IndexError): # value is tuple with f(x) or constant
+                  if not isinstance(j, tuple): continue # out of range
                   j0,j1 = (j[:2] + (1,))[:2]
                   try: x[i] = j1(x[j0]) if isinstance(j1, _Callable) else j1*x[j0]
                   except IndexError: pass
